@@ -186,6 +186,42 @@ func (e *joinEnv) view(srv *world.Server, i int) []world.Spec {
 	return out
 }
 
+// refSelect: the destination objects selected by at least one source object,
+// by the harness' own statement of the selection rules (world.SelectsPod; an
+// ingress selects the services of its namespace that it names).
+func refSelect(srcKind string, srcs, dsts []world.Spec) []world.Spec {
+	var out []world.Spec
+	for _, d := range dsts {
+		for _, s := range srcs {
+			hit := false
+			if srcKind == "ingress" {
+				for _, r := range s.Refs {
+					if r != "" && r == d.Name && s.NS == d.NS {
+						hit = true
+					}
+				}
+			} else {
+				hit = world.SelectsPod(srcKind, s, d)
+			}
+			if hit {
+				out = append(out, d)
+				break
+			}
+		}
+	}
+	return out
+}
+
+// agree: the expected selection computed through the library's own selection
+// filters and through the harness' independent statement of the rule must be
+// the same set; the independent one is what the join is then held to.
+func (e *joinEnv) agree(lib, ref []world.Spec) []world.Spec {
+	if a, b := world.SpecIDs(lib), world.SpecIDs(ref); !world.SameIDs(a, b) {
+		detsim.Fail("join-selection-wrong", "join(%s): the selection computed with the library's filters differs from the selection rule stated independently (a filter accepts or rejects what it should not)\n  library filters : %v\n  independent rule: %v\n  source: %v", e.sc.Kind, a, b, world.SpecIDs(e.src.Objects()))
+	}
+	return ref
+}
+
 func selectBy(f filter.Filter, kind string, objs []world.Spec) []world.Spec {
 	var out []world.Spec
 	for _, o := range objs {
@@ -252,7 +288,7 @@ func (e *joinEnv) setup() {
 			for _, o := range srcObjs() {
 				objs = append(objs, world.Build("service", o).(*corev1.Service))
 			}
-			return selectBy(fn(objs...), "pod", dstObjs())
+			return e.agree(selectBy(fn(objs...), "pod", dstObjs()), refSelect("service", srcObjs(), dstObjs()))
 		}
 	case "rc":
 		s, err := replicationcontroller.BuildController(e.srcCtx, e.log, e.src)
@@ -278,7 +314,7 @@ func (e *joinEnv) setup() {
 			for _, o := range srcObjs() {
 				objs = append(objs, world.Build("replicationcontroller", o).(*corev1.ReplicationController))
 			}
-			return selectBy(fn(objs...), "pod", dstObjs())
+			return e.agree(selectBy(fn(objs...), "pod", dstObjs()), refSelect("replicationcontroller", srcObjs(), dstObjs()))
 		}
 	case "rs":
 		s, err := replicaset.BuildController(e.srcCtx, e.log, e.src)
@@ -304,7 +340,7 @@ func (e *joinEnv) setup() {
 			for _, o := range srcObjs() {
 				objs = append(objs, world.Build("replicaset", o).(*appsv1.ReplicaSet))
 			}
-			return selectBy(fn(objs...), "pod", dstObjs())
+			return e.agree(selectBy(fn(objs...), "pod", dstObjs()), refSelect("replicaset", srcObjs(), dstObjs()))
 		}
 	case "deployment":
 		s, err := deployment.BuildController(e.srcCtx, e.log, e.src)
@@ -330,7 +366,7 @@ func (e *joinEnv) setup() {
 			for _, o := range srcObjs() {
 				objs = append(objs, world.Build("deployment", o).(*appsv1.Deployment))
 			}
-			return selectBy(fn(objs...), "pod", dstObjs())
+			return e.agree(selectBy(fn(objs...), "pod", dstObjs()), refSelect("deployment", srcObjs(), dstObjs()))
 		}
 	case "daemonset":
 		s, err := daemonset.BuildController(e.srcCtx, e.log, e.src)
@@ -356,7 +392,7 @@ func (e *joinEnv) setup() {
 			for _, o := range srcObjs() {
 				objs = append(objs, world.Build("daemonset", o).(*appsv1.DaemonSet))
 			}
-			return selectBy(fn(objs...), "pod", dstObjs())
+			return e.agree(selectBy(fn(objs...), "pod", dstObjs()), refSelect("daemonset", srcObjs(), dstObjs()))
 		}
 	case "statefulset":
 		s, err := statefulset.BuildController(e.srcCtx, e.log, e.src)
@@ -382,7 +418,7 @@ func (e *joinEnv) setup() {
 			for _, o := range srcObjs() {
 				objs = append(objs, world.Build("statefulset", o).(*appsv1.StatefulSet))
 			}
-			return selectBy(fn(objs...), "pod", dstObjs())
+			return e.agree(selectBy(fn(objs...), "pod", dstObjs()), refSelect("statefulset", srcObjs(), dstObjs()))
 		}
 	case "job":
 		s, err := job.BuildController(e.srcCtx, e.log, e.src)
@@ -408,7 +444,7 @@ func (e *joinEnv) setup() {
 			for _, o := range srcObjs() {
 				objs = append(objs, world.Build("job", o).(*batchv1.Job))
 			}
-			return selectBy(fn(objs...), "pod", dstObjs())
+			return e.agree(selectBy(fn(objs...), "pod", dstObjs()), refSelect("job", srcObjs(), dstObjs()))
 		}
 	case "ingress-service":
 		s, err := ingress.BuildController(e.srcCtx, e.log, e.src)
@@ -436,7 +472,7 @@ func (e *joinEnv) setup() {
 			for _, o := range srcObjs() {
 				objs = append(objs, world.Build("ingress", o).(*netv1beta1.Ingress))
 			}
-			return selectBy(fn(objs...), "service", dstObjs())
+			return e.agree(selectBy(fn(objs...), "service", dstObjs()), refSelect("ingress", srcObjs(), dstObjs()))
 		}
 	case "ingress-pods":
 		s, err := ingress.BuildController(e.srcCtx, e.log, e.src)
@@ -462,7 +498,8 @@ func (e *joinEnv) setup() {
 			for _, o := range selectBy(ingress.ServicesFilter(ings...), "service", midObjs()) {
 				svcs = append(svcs, world.Build("service", o).(*corev1.Service))
 			}
-			return selectBy(service.PodsFilter(svcs...), "pod", dstObjs())
+			lib := selectBy(service.PodsFilter(svcs...), "pod", dstObjs())
+			return e.agree(lib, refSelect("service", refSelect("ingress", srcObjs(), midObjs()), dstObjs()))
 		}
 	default:
 		detsim.Fail("infra:scenario", "unknown join kind %q", sc.Kind)
@@ -790,7 +827,10 @@ func genJoin(g GenCtx, kind string, overrun bool) *Join {
 	sc := &Join{Prop: g.Prop}
 	sc.Kind = kind
 	sc.With = sc.Kind != "ingress-pods" && rng.Intn(3) == 0
-	sels := []map[string]string{nil, {"app": "a"}, {"app": "b"}, {"app": "a", "tier": "x"}}
+	sels := []map[string]string{nil, {"app": "a"}, {"app": "b"}, {"app": "a", "tier": "x"},
+		// match expressions (label-selector kinds; plain-map kinds ignore them): selectors
+		// made only of negative requirements select objects that lack the key
+		{"_expr": "tier notin x"}, {"_expr": "!tier"}, {"app": "a", "_expr": "tier notin y"}, {"_expr": "app in a|b;!App"}}
 	ns := func() string { return pick(rng, "n1", "n1", "n2") }
 	svcName := func() string { return pick(rng, "svc1", "svc2", "svc3") }
 	refs := func() []string {
